@@ -2,8 +2,10 @@
    Relative to three facts about the stream decoders (flate2 is not modelled): each inverts
    its encoders; zlib-wrapped streams start with a valid zlib header, bare deflate streams
    produced by encoders do not.  These facts are sampled by the correspondence run. *)
-From Coq Require Import String.
-From Http Require Import Model.Bytes Model.Headers Model.Coding Proofs.Rewrite Proofs.CodingGlue.
+From Coq Require Import String List NArith.
+From Http Require Import Model.Bytes Model.Headers Model.Coding Model.Inflate Spec.DeflateStored
+     Proofs.Rewrite Proofs.CodingGlue Proofs.InflateC15 Proofs.InflateStored.
+Import ListNotations.
 
 Theorem C13_decode_inverts_every_stack :
   forall (gunzip inflate_raw inflate_zlib : bytes -> option bytes)
@@ -32,3 +34,45 @@ Example C13_sniff :
   zlib_header [120; 156; 75]%N = true /\ zlib_header [120; 1]%N = true /\
   zlib_header [75; 76; 74]%N = false /\ zlib_header [120]%N = false /\ zlib_header [120; 157]%N = false.
 Proof. vm_compute. repeat split. Qed.
+
+(* ---- with the model of flate2 (Model/Inflate.v) in place of the decoder parameters ----
+   For the stored-block encoders of Spec/DeflateStored.v (DEFLATE "level 0": any partition of the data
+   into blocks of at most 65535 bytes; bare, zlib with any valid header, gzip with any header the parser
+   accepts) the three decoder facts above are theorems, so every stack of these encodings over every
+   body is inverted, with no hypothesis left.  Huffman-coded blocks (levels 1-9) are covered by the
+   general theorem above relative to its hypotheses, and by the correspondence run. *)
+Theorem C13_stored_encoders_inverted :
+  forall (hs : list header) (fs : list format) (d e : bytes),
+    Enc stored_enc fs d e ->
+    header_tokens hs CONTENT_ENCODING = map coding_token fs ->
+    exists hs', decode_body gunzip_model inflate_raw_model inflate_zlib_model hs e = Some (hs', d).
+Proof. exact decode_inverts_stored_stack. Qed.
+Print Assumptions C13_stored_encoders_inverted.
+
+Theorem C13_stored_gzip : forall d e, stored_gzip d e -> gunzip_model e = Some d.
+Proof. exact gzip_stored_inverts. Qed.
+Print Assumptions C13_stored_gzip.
+
+Theorem C13_stored_zlib : forall d e, stored_zlib d e -> inflate_zlib_model e = Some d /\ zlib_header e = true.
+Proof. exact zlib_stored_inverts. Qed.
+Print Assumptions C13_stored_zlib.
+
+Theorem C13_stored_raw : forall d e, stored_raw d e -> inflate_raw_model e = Some d /\ zlib_header e = false.
+Proof. exact raw_stored_inverts. Qed.
+Print Assumptions C13_stored_raw.
+
+(* non-vacuity: "hi!" in two stored blocks, as a bare stream, then that stream inside a gzip member *)
+Definition ex_raw : bytes := store_chunks [[104; 105]; [33]]%N.
+Definition ex_gz : bytes := [31; 139; 8; 0; 0; 0; 0; 0; 0; 3]%N ++ store_chunks [ex_raw] ++ [164; 40; 185; 196; 13; 0; 0; 0]%N.
+Example C13_stored_example : Enc stored_enc [Raw; Gz] [104; 105; 33]%N ex_gz.
+Proof.
+  apply (Enc_cons stored_enc Raw [Gz] [104; 105; 33]%N ex_raw ex_gz).
+  - exists [[104; 105]; [33]]%N. split; [|split; reflexivity].
+    repeat constructor; vm_compute; discriminate.
+  - apply (Enc_cons stored_enc Gz [] ex_raw ex_gz ex_gz); [|apply Enc_nil].
+    exists [ex_raw], [31; 139; 8; 0; 0; 0; 0; 0; 0; 3]%N, [164; 40; 185; 196; 13; 0; 0; 0]%N.
+    split; [repeat constructor; vm_compute; discriminate|].
+    split; [vm_compute; reflexivity|].
+    split; [intros y; reflexivity|].
+    split; [reflexivity|]. split; [vm_compute; reflexivity|]. split; [vm_compute; reflexivity|]. reflexivity.
+Qed.
